@@ -64,4 +64,65 @@ def run_optable(prop):
             ev.cov["refuted"].append({"role": role, "rows": len(details), "replay": path})
         else:
             inconc.append(f"{role}: {len(details)} typing rows disagree with the runtime summary (e.g. {details[0]['row']} {details[0]['bad'][:1]}) but no witness program reproduced natively")
+    # ---- type-state flow lemmas (engine S on the MIR of the nodes' type_info)
+    try:
+        import typeflowlemmas
+        from lemma import Discharger
+        thorough = tier() == "thorough"
+        tb = {"block": 5, "array": 4} if thorough else {"block": 3, "array": 2}
+        ev.cov["bounds"].append(f"type-state flow lemmas: IfStatement, Not, Group, Predicate, Unary, Container, Return, Abort (no bound); Block 1..{tb['block']} expressions, Array/Object 0..{tb['array']} elements; "
+                                "children are oracles that return an arbitrary type and name the state they leave after the state they were given")
+        tobls, tfns = typeflowlemmas.obligations(S, tb)
+        battery_of = {o.role: typeflowlemmas.battery for o in tobls}
+        if prop == "C02":
+            # the infallible-division / short-circuit decisions of Op::type_info read operand constants in the state of evaluation
+            import stateflowlemmas
+            sobls, sfns = stateflowlemmas.obligations(S)
+            for o in sobls:
+                o.props = set(o.props) | {"C02"}
+                battery_of[o.role] = stateflowlemmas.battery
+            tobls, tfns = tobls + sobls, sorted(set(tfns) | set(sfns))
+            ev.cov["bounds"].append("Op::type_info state-flow lemma (all opcodes, no bound): operand constants are read in the state in which the operand is evaluated")
+        ev.cov["functions_encoded"] += [f"{n} [mir sha256:{h}]" for n, h in tfns]
+        refuted = {}
+        for o in tobls:
+            if prop not in o.props:
+                continue
+            D = Discharger(o.ex, ev, prop, cvc5_cross=thorough)
+            r = D.check(o.name, o.path, o.post, detail={"role": o.role, **(o.detail or {})})
+            if r is False:
+                refuted.setdefault(o.role, []).append(o)
+            elif r is None:
+                inconc += D.inconclusive
+        for role, items in sorted(refuted.items()):
+            if role in known:
+                known_lines.append(f"KNOWN-FINDING: property={prop} {known[role]['what']}")
+                ev.cov["obligations"] -= len(items)
+                continue
+            reproduced = None
+            nat = {}
+            for spec, exp in battery_of[role]():
+                for prof in ("dev", "release"):
+                    obs = vrl_replay.call("run", [spec], prof)
+                    if obs is None:
+                        nat[prof] = "replayer unavailable"
+                        continue
+                    mm = witness.mismatch(obs[0], exp)
+                    if mm:
+                        reproduced = (spec, exp, {prof: "REPRODUCED: " + "; ".join(mm)})
+                        break
+                if reproduced:
+                    break
+            if reproduced:
+                spec, exp, nat = reproduced
+                os.makedirs(os.path.join(VERIF, "replays"), exist_ok=True)
+                h = hashlib.sha1((role + json.dumps(spec, sort_keys=True)).encode()).hexdigest()[:10]
+                path = os.path.join(VERIF, "replays", f"{prop}-{h}.json")
+                json.dump({"engine": "mirse", "mode": "run", "property": prop, "role": role, "problems": items[0].detail.get("problems"), "spec": spec, "expect": exp, "native": nat}, open(path, "w"), indent=1)
+                viol.append((role, path))
+                ev.cov["refuted"].append({"role": role, "paths": len(items), "replay": path})
+            else:
+                inconc.append(f"{role}: refuted on {len(items)} path(s) ({items[0].detail.get('problems')}) but no battery program reproduced natively")
+    except Unencodable as e:
+        inconc.append(f"unencodable (type-state flow lemmas): {e}")
     return ev, viol, inconc, known_lines
